@@ -5,6 +5,15 @@
 //! stop, reopen from the same directory), and the real `ReplicationHandler::prepare_batch_requests` snapshot-target
 //! rule for a lagging peer.
 //!
+//! Second kind (`k=worker …`): the real per-follower replication worker (`LeaderState::tick` →
+//! `execute_and_process_raft_rpc` → `send_to_worker_or_spawn` → `run_replication_worker`) for a peer below the purge
+//! boundary, with a transport whose snapshot push fails `fail` times and then succeeds; the harness plays the Raft
+//! loop for the events the worker emits (`SnapshotPushCompleted` → `init_peers_next_index_and_match_index`,
+//! `handle_snapshot_push_completed`), tokio time is paused.
+//!   case  : `k=worker first=<F> last=<L> snap=<S|-> next=<n> base=<ms> cap=<ms> fail=<k>|h<dt>;h<dt>;…`
+//!   output: per heartbeat round `<calls>.<peer next_index>`, calls = `Sf` (push attempted, failed) | `Sk` (push
+//!           succeeded) | `A<prev_log_index>` (AppendEntries handed to the peer's stream) | `-` (nothing reached the peer)
+//!
 //! case : `eng=<file|rocks> role=<L|F|N> ret=<retained_log_entries>|op;op;…`
 //!   w<k>.<t>   append k entries of term t to the raft log and flush
 //!   c<i>       commit index := i
@@ -352,9 +361,155 @@ fn lease() -> Arc<TtlLease> {
     Arc::new(TtlLease::new(d_engine_core::config::LeaseConfig::default()))
 }
 
+// ------------------------------------------------------------------------------------------ worker kind
+#[derive(Debug, Clone, Copy)]
+struct WT;
+impl TypeConfig for WT {
+    type R = BufferedRaftLog<Self>;
+    type SE = d_engine_core::MockStorageEngine;
+    type E = MockElectionCore<Self>;
+    type TR = MockTransport<Self>;
+    type SM = d_engine_core::MockStateMachine;
+    type M = MockMembership<Self>;
+    type REP = ReplicationHandler<Self>;
+    type C = MockCommitHandler;
+    type SMH = d_engine_core::MockStateMachineHandler<Self>;
+    type SNP = MockSnapshotPolicy;
+    type PE = d_engine_core::MockPurgeExecutor;
+}
+
+async fn settle() {
+    for _ in 0..200 {
+        tokio::task::yield_now().await;
+    }
+}
+
+async fn exec_worker(f: &std::collections::HashMap<String, String>, ops: &str) -> String {
+    use d_engine_proto::server::replication::AppendEntriesRequest;
+    use std::sync::Mutex;
+    let g = |k: &str| -> u64 { f[k].parse().unwrap() };
+    let (first, last, next0, base, cap, fail) = (g("first"), g("last"), g("next"), g("base"), g("cap"), g("fail"));
+    let snap: Option<u64> = if f["snap"] == "-" { None } else { Some(f["snap"].parse().unwrap()) };
+    let storage = Arc::new(d_engine_core::MockStorageEngine::new());
+    let (log, _iorx) = BufferedRaftLog::<WT>::new(
+        1,
+        PersistenceConfig {
+            strategy: PersistenceStrategy::MemFirst,
+            flush_policy: FlushPolicy::Batch { idle_flush_interval_ms: 1000 },
+            max_buffered_entries: 100_000,
+        },
+        storage,
+    );
+    let log = Arc::new(log);
+    let entries: Vec<Entry> =
+        (first..=last).map(|i| Entry { index: i, term: 1, payload: Some(EntryPayload::noop()) }).collect();
+    if !entries.is_empty() {
+        log.append_entries(entries).await.expect("append");
+    }
+    let mut sm = d_engine_core::MockStateMachine::new();
+    sm.expect_last_applied().return_const(LogId { index: 0, term: 0 });
+    sm.expect_is_running().returning(|| true);
+    sm.expect_snapshot_metadata().returning(move || {
+        snap.map(|i| d_engine_proto::server::storage::SnapshotMetadata {
+            last_included: Some(LogId { index: i, term: 1 }),
+            checksum: Bytes::from(vec![0u8; 32]),
+        })
+    });
+    let mut membership = MockMembership::<WT>::new();
+    membership.expect_voters().returning(|| vec![peer2()]);
+    membership.expect_replication_peers().returning(|| vec![peer2()]);
+    // transport: records what reaches the peer
+    let calls: Arc<Mutex<Vec<String>>> = Arc::new(Mutex::new(vec![]));
+    let streams: Arc<Mutex<Vec<mpsc::Receiver<AppendEntriesRequest>>>> = Arc::new(Mutex::new(vec![]));
+    let remaining = Arc::new(Mutex::new(fail));
+    let mut transport = MockTransport::<WT>::new();
+    {
+        let streams = streams.clone();
+        transport.expect_open_replication_stream().returning(move |_, _, _| {
+            let (tx, rx) = mpsc::channel(128);
+            streams.lock().unwrap().push(rx);
+            Ok(d_engine_core::ReplicationStream {
+                sender: tx,
+                receiver: Box::pin(futures::stream::pending()),
+            })
+        });
+    }
+    {
+        let calls = calls.clone();
+        let remaining = remaining.clone();
+        transport.expect_send_snapshot().returning(move |p, _, _, _, _| {
+            let mut r = remaining.lock().unwrap();
+            if *r > 0 {
+                *r -= 1;
+                calls.lock().unwrap().push("Sf".into());
+                Err(d_engine_core::Error::System(d_engine_core::SystemError::Network(
+                    d_engine_core::NetworkError::PeerConnectionNotFound(p),
+                )))
+            } else {
+                calls.lock().unwrap().push("Sk".into());
+                Ok(())
+            }
+        });
+    }
+    let mut cfg = RaftNodeConfig::default();
+    cfg.raft.replication.rpc_append_entries_clock_in_ms = 1;
+    cfg.retry.install_snapshot.base_delay_ms = base;
+    cfg.retry.install_snapshot.push_backoff_max_delay_ms = cap;
+    let cfg = Arc::new(cfg);
+    let (itx, mut irx) = mpsc::unbounded_channel();
+    let ctx = RaftContext::<WT> {
+        node_id: 1,
+        storage: RaftStorageHandles { raft_log: log, state_machine: Arc::new(sm) },
+        transport: Arc::new(transport),
+        membership: Arc::new(membership),
+        handlers: RaftCoreHandlers {
+            election_handler: MockElectionCore::new(),
+            replication_handler: ReplicationHandler::new(1),
+            state_machine_handler: Arc::new(d_engine_core::MockStateMachineHandler::<WT>::new()),
+            purge_executor: Arc::new(d_engine_core::MockPurgeExecutor::new()),
+        },
+        node_config: cfg.clone(),
+    };
+    let mut l = LeaderState::<WT>::new(1, cfg.clone());
+    l.update_current_term(1);
+    l.init_peers_next_index_and_match_index(ctx.raft_log().last_entry_id(), vec![2]).unwrap();
+    l.init_cluster_metadata(&ctx.membership()).await.unwrap();
+    l.update_next_index(2, next0).unwrap();
+    let (etx, _erx) = mpsc::channel::<d_engine_core::InboundEvent>(4);
+    let mut out: Vec<String> = vec![];
+    for op in ops.split(';').filter(|s| !s.is_empty()) {
+        let dt: u64 = op.strip_prefix('h').expect("op").parse().unwrap();
+        tokio::time::advance(std::time::Duration::from_millis(dt)).await;
+        let _ = l.tick(&itx, &etx, &ctx).await;
+        settle().await;
+        // the Raft loop's handling of what the worker reported (raft.rs handle_internal_event)
+        while let Ok(ev) = irx.try_recv() {
+            if let InternalEvent::SnapshotPushCompleted { peer_id, success } = ev {
+                if success {
+                    let last_id = ctx.raft_log().last_entry_id();
+                    let _ = l.init_peers_next_index_and_match_index(last_id, vec![peer_id]);
+                }
+                l.handle_snapshot_push_completed(peer_id, success, &cfg.retry.install_snapshot, 1);
+            }
+        }
+        let mut round: Vec<String> = calls.lock().unwrap().drain(..).collect();
+        for rx in streams.lock().unwrap().iter_mut() {
+            while let Ok(req) = rx.try_recv() {
+                round.push(format!("A{}", req.prev_log_index));
+            }
+        }
+        let c = if round.is_empty() { "-".to_string() } else { round.join(",") };
+        out.push(format!("{}.{}", c, l.next_index(2).unwrap_or(0)));
+    }
+    out.join(";")
+}
+
 async fn exec_async(case: &str) -> String {
     let (hd, ops) = case.split_once('|').expect("case");
     let f = fields(hd);
+    if f.get("k").map(|s| s.as_str()) == Some("worker") {
+        return exec_worker(&f, ops).await;
+    }
     let ret: u64 = f["ret"].parse().unwrap();
     let role = f["role"].clone();
     std::fs::create_dir_all(TMP).unwrap();
@@ -401,6 +556,10 @@ async fn exec_async(case: &str) -> String {
 
 fn exec(case: &str) -> String {
     unsafe { std::env::set_var("TMPDIR", TMP) };
+    if case.starts_with("k=worker") {
+        let rt = tokio::runtime::Builder::new_current_thread().enable_all().start_paused(true).build().unwrap();
+        return rt.block_on(exec_async(case));
+    }
     let rt = tokio::runtime::Builder::new_multi_thread().worker_threads(2).enable_all().build().unwrap();
     let r = rt.block_on(exec_async(case));
     rt.shutdown_background();
@@ -487,8 +646,27 @@ fn gen_lifecycle(r: &mut Rng, eng: &str) -> String {
     format!("eng={eng} role={role} ret={ret}|{}", ops.join(";"))
 }
 
+/// a peer below (or at / above) the purge boundary; snapshot pushes fail `fail` times; heartbeats spaced around the
+/// backoff windows
+fn gen_worker(r: &mut Rng) -> String {
+    let first = 2 + r.below(6);
+    let last = first + r.below(5);
+    let snap = match r.below(8) { 0 => "-".to_string(), _ => (first - 1 + r.below(2)).to_string() };
+    let next = match r.below(5) { 0 => first + r.below(last - first + 2), _ => 1 + r.below(first - 1) };
+    let base = *r.pick(&[10u64, 50, 100, 1000]);
+    let cap = base * *r.pick(&[1u64, 2, 4, 8, 64]);
+    let fail = r.below(5);
+    let n = 2 + r.below(10);
+    let ops: Vec<String> = (0..n)
+        .map(|_| format!("h{}", match r.below(6) { 0 => 2, 1 => base, 2 => base * 2 + 1, 3 => cap, 4 => cap + 2, _ => 2 + r.below(2 * cap) }))
+        .collect();
+    format!("k=worker first={first} last={last} snap={snap} next={next} base={base} cap={cap} fail={fail}|{}", ops.join(";"))
+}
+
 fn generate(r: &mut Rng, n: usize, _tier: &str) -> Vec<String> {
     let mut out = vec![];
+    // the worker kind is cheap (no disk): as many again
+    for _ in 0..n { out.push(gen_worker(r)); }
     for i in 0..n {
         let eng = if i % 5 == 4 { "rocks" } else { "file" };
         out.push(if i % 3 == 0 { gen_lifecycle(r, eng) } else { gen_case(r, eng) });
